@@ -85,8 +85,17 @@ class _Ev:
             return -self.ev(n.operand)
         if isinstance(n, ast.Tuple):
             return tuple(self.ev(e) for e in n.elts)
+        if isinstance(n, ast.Dict):
+            return {self.ev(k): self.ev(v) for k, v in zip(n.keys, n.values)}
+        if "UNIT" in self.env and ast.unparse(n).replace('"', "'") == "str(dtype).split('[')[1][:-1].split(',')[0]":
+            return self.env["UNIT"]             # the unit text of the column's datetime64[unit(, tz)] dtype
         if isinstance(n, ast.Subscript):
             base = self.ev(n.value)
+            if isinstance(base, dict):
+                key = self.ev(n.slice)
+                if key in base:
+                    return base[key]
+                raise Untranslatable("no entry %r in %s" % (key, ast.unparse(n.value)[:40]))
             key = self.ev(n.slice)
             if isinstance(base, _Rec) and key in base:
                 return base[key]
@@ -195,45 +204,46 @@ def time_roundtrip():
                ["writer.convert (INT96 and datetime branches)", "writer.find_type", "writer.time_factors",
                 "converted_types.convert (INT96 and timestamp branches)"], {})
     V = z3.Int("V")
-    lo, hi = -(2 ** 63) + 1, 2 ** 63 - 1           # datetime64[ns] range (the minimum is NaT)
-    s = z3.Solver()
-    s.set("timeout", 120000)
-    s.add(V >= lo, V <= hi)
-    try:
-        # ---- A: INT96 -------------------------------------------------------------------------------
-        wbody = _branch(writer.convert, lambda t: "INT96" in t and "kind" in t)
-        rbody = _branch(ct.convert, lambda t: "INT96" in t)
-        if wbody is None or rbody is None:
-            raise Untranslatable("INT96 branches not found")
-        w = _Ev({"V": V}, {})
-        w.run(wbody)
-        rec = w.env.get("out")
-        if not isinstance(rec, _Rec) or set(rec) != {"ns", "day"}:
-            raise Untranslatable("writer INT96 branch does not fill the (ns, day) record")
-        r = _Ev({"V": None, "REC": rec}, {"DAYS_TO_NANOS": int(ct.DAYS_TO_NANOS)})
-        back = r.run(rbody)
-        if back is None:
-            raise Untranslatable("reader INT96 branch has no return value")
-        back = _wrap(back, 64)
-    except Untranslatable as ex:
-        res["status"] = "inconclusive"
-        res["inconclusive"].append("INT96: " + str(ex))
-        return res
-    q = _check(res, s, back != V)
-    if q == "sat":
-        v = s.model().eval(V, model_completion=True).as_long()
-        res["status"] = "violation"
-        res["findings"].append(dict(
-            kind="contract", function="writer.convert/converted_types.convert", obligation="INT96 round trip",
-            detail="the nanosecond count %d (%s) is stored as an INT96 that decodes to another instant" % (
-                v, np.datetime64(v, "ns")),
-            shape=dict(harness="lemma.time_roundtrip", encoding="int96"), cls="lemma:time_roundtrip",
-            witness=dict(driver="py:vf.pyshim.lemma_time:replay_time", args=dict(v=v, unit="ns", times="int96"))))
-        return res
-    if q == "unknown":
-        res["status"] = "inconclusive"
-        res["inconclusive"].append("solver unknown (INT96)")
-        return res
+    # ---- A: INT96, every unit of the column (V = the count in that unit) ------------------------------------------
+    for unit in ("ns", "us", "ms", "s"):
+        lim = (2 ** 63 - 1) // NS[unit]             # instants a datetime64[ns] can hold (the reader's dtype)
+        s = z3.Solver()
+        s.set("timeout", 120000)
+        s.add(V >= -lim, V <= lim)
+        try:
+            wbody = _branch(writer.convert, lambda t: "INT96" in t and "kind" in t)
+            rbody = _branch(ct.convert, lambda t: "INT96" in t)
+            if wbody is None or rbody is None:
+                raise Untranslatable("INT96 branches not found")
+            w = _Ev({"V": V, "UNIT": unit}, {"time_factors": dict(writer.time_factors)})
+            w.run(wbody)
+            rec = w.env.get("out")
+            if not isinstance(rec, _Rec) or set(rec) != {"ns", "day"}:
+                raise Untranslatable("writer INT96 branch does not fill the (ns, day) record")
+            r = _Ev({"V": None, "REC": rec}, {"DAYS_TO_NANOS": int(ct.DAYS_TO_NANOS)})
+            back = r.run(rbody)
+            if back is None:
+                raise Untranslatable("reader INT96 branch has no return value")
+            back = _wrap(back, 64)
+        except Untranslatable as ex:
+            res["status"] = "inconclusive"
+            res["inconclusive"].append("INT96[%s]: %s" % (unit, ex))
+            return res
+        q = _check(res, s, back != NS[unit] * V)
+        if q == "sat":
+            v = s.model().eval(V, model_completion=True).as_long()
+            res["status"] = "violation"
+            res["findings"].append(dict(
+                kind="contract", function="writer.convert/converted_types.convert", obligation="INT96 round trip",
+                detail="the datetime64[%s] count %d (%s) is stored as an INT96 that decodes to another instant" % (
+                    unit, v, np.datetime64(v, unit)),
+                shape=dict(harness="lemma.time_roundtrip", encoding="int96", unit=unit), cls="lemma:time_roundtrip",
+                witness=dict(driver="py:vf.pyshim.lemma_time:replay_time", args=dict(v=v, unit=unit, times="int96"))))
+            return res
+        if q == "unknown":
+            res["status"] = "inconclusive"
+            res["inconclusive"].append("solver unknown (INT96, %s)" % unit)
+            return res
     # ---- B: INT64 timestamps, every unit ----------------------------------------------------------------
     mbody = _branch(writer.convert, lambda t: t.strip() == "dtype.kind == 'M'")
     mul = None
